@@ -296,6 +296,7 @@ def check(chk):
     chk.ob("PAIR-23", "stop() cancels the fade task", ok, st.where(), construct=st.ident, text="stop cancels")
 
     _stack_reads(chk, repo)
+    _interpolation(chk, repo)
     _direct_fade(chk, repo)
 
     # ------------------------------------------------------------ BATCH-1
@@ -399,6 +400,66 @@ def check(chk):
                                  (isinstance(x.ops[0], ast.Lt) and src(x.comparators[0]) == "self.dirty_schedule[0][0]") for x in cmp_)
         chk.ob("BATCH-3", "`earlier` compares the first scheduled time with the new step's time", okc, g.where(), construct=g.ident,
                text="earliest comparison")
+
+
+def _interpolation(chk, repo):
+    """INTERP-1: a running fade is interpolated between its endpoints and never outside them: the blend ratio is
+    (t - start) / (end - start) and is computed only where start < t <= end; outside, the endpoint itself is returned.
+    FADE-2: the start colour of a new fade is the colour the light shows below the new entry, read before the old entry of
+    the same key is removed; entries without a fade carry no fade end."""
+    f = repo.func(LT, "Light._get_color_and_fade")
+    cfg = f.cfg()
+    S, D = "color_settings.start_time", "color_settings.dest_time"
+    bl = [(n, c) for n, c in cfg.calls_named("blend")]
+    chk.need(len(bl) == 1, "INTERP-1", "a running fade blends start and destination colour", f)
+    n, c = bl[0]
+    chk.ob("INTERP-1", "the blend goes from the entry's start colour to its destination by the computed ratio",
+           [src(a) for a in c.args] == ["color_settings.start_color", "dest_color", "ratio"], f.where(c), detail=src(c), construct=f.ident, text="blend arguments")
+    ra = [x for x in ast.walk(f.node) if isinstance(x, ast.Assign) and src(x.targets[0]) == "ratio" and isinstance(x.value, ast.BinOp)]
+    ok = False
+    tvar = None
+    if len(ra) == 1 and isinstance(ra[0].value.op, ast.Div):
+        num, den = ra[0].value.left, ra[0].value.right
+        ok = isinstance(num, ast.BinOp) and isinstance(num.op, ast.Sub) and isinstance(den, ast.BinOp) and isinstance(den.op, ast.Sub) and \
+            src(num.right) == S and src(den.left) == D and src(den.right) == S and isinstance(num.left, ast.Name)
+        tvar = num.left.id if ok else None
+    chk.ob("INTERP-1", "ratio = (t - start_time) / (dest_time - start_time)", ok, f.where(ra[0]) if ra else f.where(), detail=src(ra[0].value) if ra else "",
+           construct=f.ident, text="ratio formula")
+    if tvar:
+        g = cfg.guards_at(n.id)
+        from sa.model import canon_eq  # noqa
+        hi = g.get("%s > %s" % (tvar, D)) is False
+        lo = g.get("%s <= %s" % (tvar, S)) is False
+        chk.ob("INTERP-1", "the ratio is used only where start_time < t <= dest_time (so it lies in (0, 1])", hi and lo, f.where(c),
+               detail="guards %s" % sorted((k, v) for k, v in g.items() if tvar in k), construct=f.ident, text="ratio range")
+        for r in [x for x in cfg.nodes if x.kind == "stmt" and isinstance(x.ast, ast.Return) and isinstance(x.ast.value, ast.Tuple)]:
+            gg = cfg.guards_at(r.id)
+            first = src(r.ast.value.elts[0])
+            if gg.get("%s > %s" % (tvar, D)) is True:
+                chk.ob("INTERP-1", "past the end of the fade the destination colour itself is returned", first == "dest_color", f.where(r.ast), construct=f.ident,
+                       text="after end")
+            elif gg.get("%s <= %s" % (tvar, S)) is True:
+                chk.ob("INTERP-1", "before the start of the fade the start colour itself is returned", first == "color_settings.start_color", f.where(r.ast),
+                       construct=f.ident, text="before start")
+    g = repo.func(LT, "Light._add_to_stack")
+    chk.analysed(g)
+    cfg = g.cfg()
+    cb = [x for x in cfg.nodes if x.kind == "stmt" and isinstance(x.ast, ast.Assign) and src(x.ast.targets[0]) == "color_below"]
+    reads = [x for x in cb if isinstance(x.ast.value, ast.Call) and call_attr(x.ast.value) == "get_color_below"]
+    rm = [x for x, c in cfg.calls_named("_remove_from_stack_by_key")]
+    ok = len(reads) == 1 and [src(a) for a in reads[0].ast.value.args] == ["priority", "key"] and cfg.guards_at(reads[0].id).get("fade_ms") is True
+    chk.ob("FADE-2", "a fade starts from the colour shown below the new entry (get_color_below(priority, key))", ok, g.where(), construct=g.ident,
+           text="fade start colour")
+    if reads and rm:
+        chk.ob("FADE-2", "the start colour is read before the previous entry of the same key is removed (a re-fade continues from the shown colour)",
+               all(reads[0].id not in cfg.reachable([r.id], include_start=False) for r in rm), g.where(reads[0].ast), construct=g.ident,
+               text="start colour before removal")
+    nof = [x for x in cb if x not in reads]
+    dt0 = [x for x in cfg.nodes if x.kind == "stmt" and isinstance(x.ast, ast.Assign) and src(x.ast.targets[0]) == "dest_time" and
+           cfg.guards_at(x.id).get("fade_ms") is False]
+    ok = len(nof) == 1 and src(nof[0].ast.value) == "None" and cfg.guards_at(nof[0].id).get("fade_ms") is False and len(dt0) == 1 and const_value(dt0[0].ast.value) == 0
+    chk.ob("FADE-2", "an entry without fade has no fade end and no start colour", ok, g.where(), construct=g.ident, text="unfaded entry")
+    chk.floor("INTERP-1", 5)
 
 
 def _stack_reads(chk, repo):
@@ -608,6 +669,13 @@ def battery():
         M("fade task start/target swapped", LI, "self._fade(start_brightness, start_time, target_brightness, target_time))", "self._fade(target_brightness, start_time, start_brightness, target_time))", "FADE-1"),
         M("direct command sets the start brightness", LI, "            self.set_brightness_and_fade(target_brightness, max(fade_ms, 0))", "            self.set_brightness_and_fade(start_brightness, max(fade_ms, 0))", "FADE-1"),
         M("fade task ends before the last command", LI, "            self.set_brightness_and_fade(min(1.0, max(brightness, 0.0)), max(fade_ms, 0))\n            if target_fade_ms <= max_fade_ms:\n                return", "            if target_fade_ms <= max_fade_ms:\n                return\n            self.set_brightness_and_fade(min(1.0, max(brightness, 0.0)), max(fade_ms, 0))", "FADE-1"),
+        M("fade ratio measured from the end", LT, "            ratio = ((target_time - color_settings.start_time) /\n                     (color_settings.dest_time - color_settings.start_time))", "            ratio = ((target_time - color_settings.dest_time) /\n                     (color_settings.dest_time - color_settings.start_time))", "INTERP-1"),
+        M("fade extrapolated before its start", LT, "        if target_time <= color_settings.start_time:\n            return color_settings.start_color, max_fade_ms, False\n", "", "INTERP-1"),
+        M("fade blended backwards", LT, "        return RGBColor.blend(color_settings.start_color, dest_color, ratio), max_fade_ms, False", "        return RGBColor.blend(dest_color, color_settings.start_color, ratio), max_fade_ms, False", "INTERP-1"),
+        M("finished fade shows its start colour", LT, "            return dest_color, int((color_settings.dest_time - current_time) * 1000), True", "            return color_settings.start_color, int((color_settings.dest_time - current_time) * 1000), True", "INTERP-1"),
+        M("fade start colour read after the old entry is gone", LT, "        if fade_ms:\n            dest_time = start_time + (fade_ms / 1000)\n            color_below = self.get_color_below(priority, key)\n        else:\n            dest_time = 0\n            color_below = None\n\n        if self.stack:\n            self._remove_from_stack_by_key(key)\n", "        if self.stack:\n            self._remove_from_stack_by_key(key)\n\n        if fade_ms:\n            dest_time = start_time + (fade_ms / 1000)\n            color_below = self.get_color_below(priority, key)\n        else:\n            dest_time = 0\n            color_below = None\n", "FADE-2"),
+        M("fade start colour of another priority", LT, "            color_below = self.get_color_below(priority, key)", "            color_below = self.get_color_below(0, key)", "FADE-2"),
+        M("twin: ratio on one line", LT, "            ratio = ((target_time - color_settings.start_time) /\n                     (color_settings.dest_time - color_settings.start_time))", "            ratio = (target_time - color_settings.start_time) / (color_settings.dest_time - color_settings.start_time)", None),
     ]
 
 
